@@ -684,6 +684,25 @@ func ruleEqualityForSuccess(c *Ctx, rid string) {
 									}
 								}
 							}
+						case "call":
+							// an equality helper of the repository: exact (or constant-time) comparison
+							// of its two operands and nothing else
+							if at.Pos && at.Call != nil {
+								if h := staticCallee(at.Call.Common()); h != nil && isExactEqualityHelper(h) {
+									args := at.Call.Common().Args
+									if len(args) == 2 {
+										for _, pr := range [][2]ssa.Value{{args[0], args[1]}, {args[1], args[0]}} {
+											ex, ok := strip(pr[0]).(*ssa.Extract)
+											if !ok || ex.Tuple != ssa.Value(cr) || ex.Index != 0 {
+												continue
+											}
+											if _, _, base, ok := fieldOf(strip(pr[1])); ok && strip(base) == ssa.Value(fn.Params[0]) {
+												s.Done[i] = true
+											}
+										}
+									}
+								}
+							}
 						case "eq":
 							if !at.Pos {
 								continue
@@ -1739,4 +1758,49 @@ func poolAdditions(v ssa.Value, depth int) (okAppend, extra bool) {
 		}
 	}
 	return okAppend, extra
+}
+
+// isExactEqualityHelper: func(a, b string|[]byte) bool whose every return is a == b or
+// subtle.ConstantTimeCompare(bytes of a, bytes of b) == 1 (no truncation, padding, folding).
+func isExactEqualityHelper(h *ssa.Function) bool {
+	if h == nil || h.Blocks == nil || !inRepo(h) || len(h.Params) != 2 || h.Signature.Results().Len() != 1 {
+		return false
+	}
+	isParam := func(v ssa.Value, k int) bool {
+		v = strip(v)
+		if cv, ok := v.(*ssa.Convert); ok {
+			v = strip(cv.X)
+		}
+		return v == ssa.Value(h.Params[k])
+	}
+	rets := returnsOf(h)
+	if len(rets) == 0 {
+		return false
+	}
+	for _, r := range rets {
+		bo, ok := strip(r.Results[0]).(*ssa.BinOp)
+		if !ok || bo.Op != token.EQL {
+			return false
+		}
+		if (isParam(bo.X, 0) && isParam(bo.Y, 1)) || (isParam(bo.X, 1) && isParam(bo.Y, 0)) {
+			continue
+		}
+		call, isCall := strip(bo.X).(*ssa.Call)
+		one, isOne := constInt(bo.Y)
+		if !isCall || !isOne || one != 1 || calleeName(call.Common()) != "crypto/subtle.ConstantTimeCompare" {
+			return false
+		}
+		a := call.Common().Args
+		if !((isParam(a[0], 0) && isParam(a[1], 1)) || (isParam(a[0], 1) && isParam(a[1], 0))) {
+			return false
+		}
+	}
+	// nothing else happens in it
+	clean := true
+	allInstrs(h, func(ins ssa.Instruction) {
+		if c, ok := ins.(*ssa.Call); ok && calleeName(c.Common()) != "crypto/subtle.ConstantTimeCompare" {
+			clean = false
+		}
+	})
+	return clean
 }
